@@ -3,6 +3,7 @@ let () =
   let f = match sub with
     | "sparseset" -> Sparseset_cmd.run_case
     | "prop" -> Plevel_cmd.run_prop_full
+    | "deps" -> Plevel_cmd.run_deps
     | "prune1" -> Plevel_global_cmd.run_prune1
     | "solve" -> Plevel_cmd.run_solve_full
     | "ctx" -> Plevel_cmd.run_ctx
